@@ -16,6 +16,8 @@ Oracle     : implementation-only: after every faulty run, with an independent re
 """
 from __future__ import annotations
 
+import os
+
 from typing import Any, Dict, List, Optional, Tuple
 
 from harness.lib import coqbuild, protocol as P, sched as S
@@ -109,6 +111,29 @@ def follow_up(root: str, reader_root: Any) -> Any:
     return sorted(r["x"] for r in t.scan())
 
 
+class OsFsyncFault:
+    """The n-th os.fsync issued by the committing actor fails with EIO (n = None: only count).  A failed fsync of a FILE
+    comes before its rename (a clean failure on the local backend); a failed fsync of the DIRECTORY comes after the rename
+    has already happened -- the backend's 'a write that raises did not happen' claim must still hold."""
+
+    def __init__(self, n: Optional[int]):
+        self.n, self.seen, self.real = n, 0, os.fsync
+
+    def __enter__(self) -> "OsFsyncFault":
+        def fsync(fd: Any) -> None:
+            sc = P.S_current()
+            if sc is not None and sc.me() is not None:
+                self.seen += 1
+                if self.n is not None and self.seen == self.n:
+                    raise OSError(5, "injected EIO on fsync")
+            return self.real(fd)
+        os.fsync = fsync
+        return self
+
+    def __exit__(self, *a: Any) -> None:
+        os.fsync = self.real
+
+
 def run_one(ctx, backend: str, opkind: str, style: str, inject=None) -> P.CaseResult:
     op = op_for(opkind)
     op["style"] = style
@@ -121,7 +146,12 @@ def run_one(ctx, backend: str, opkind: str, style: str, inject=None) -> P.CaseRe
 
 def written_files(res: P.CaseResult) -> List[str]:
     out = []
+    seen_commit = False
     for e in res.log:
+        if "Transaction.commit" in (e.get("phase") or ()):
+            seen_commit = True
+        elif seen_commit and "Transaction.append_data" in (e.get("phase") or ()):
+            break               # style "reuse": a SECOND transaction on the same object starts here (rolled back by the driver)
         if e.get("performed") is False:
             continue
         pcs = P.path_class(e["path"])
@@ -306,10 +336,11 @@ def run(ctx) -> None:
     backends = ["local", "s3cas", "s3nocas"]
     for backend in backends:
         for opkind in (["append", "delete_snapshot"] if quick else ["append", "expire", "delete_snapshot", "delete_current"]):
-            for style in (["with"] if opkind != "append" else ["with", "explicit"]):
+            for style in (["with"] if opkind != "append" else ["with", "explicit", "reuse"]):
                 combos.append((backend, opkind, style))
     exprs, meta_runs, bad = [], [], []
     total = 0
+    reuse_runs = [0]
     for backend, opkind, style in combos:
         clean = run_one(ctx, backend, opkind, style)
         clean.root = ctx.scratch + "/c04"
@@ -341,6 +372,9 @@ def run(ctx) -> None:
                 ctx.violation(f"commit-fault:{fk}:{backend}:{opkind}:{style}:{where}",
                               f"{why} [fault {fk} at call {k} ({at.get('op')} {P.path_class(at.get('path', ''))} in {where})]",
                               {"backend": backend, "op": opkind, "style": style, "k": k, "k2": k2, "fault": fk, "outcome": res.outcomes["A0"]})
+            if style == "reuse":
+                reuse_runs[0] += 1
+                continue        # the second transaction on the reused object is outside the one-commit model: oracle only
             try:
                 evs, _notes = project_fault(res, backend == "s3cas")
             except P.Nonconforming as e:
@@ -348,7 +382,26 @@ def run(ctx) -> None:
                 continue
             exprs.append(model_expr(res, opkind, backend, evs))
             meta_runs.append((backend, opkind, style, k, k2, fk, res, evs, post))
+    # local backend: the n-th fsync of the commit fails (files before their rename, directories after it)
+    for opkind, style in ([("append", "with"), ("append", "explicit")] if quick else [("append", "with"), ("append", "explicit"), ("expire", "with"), ("delete_snapshot", "with")]):
+        with OsFsyncFault(None) as cnt:
+            clean = run_one(ctx, "local", opkind, style)
+        clean.root = ctx.scratch + "/c04"
+        pre, post = sig(clean.initial), sig(clean.final)
+        ctx.stats.setdefault("fsyncs_per_commit", {})[f"{opkind}/{style}"] = cnt.seen
+        for n in range(1, cnt.seen + 1):
+            with OsFsyncFault(n):
+                res = run_one(ctx, "local", opkind, style)
+            res.root = ctx.scratch + "/c04"
+            total += 1
+            reuse_runs[0] += 1          # (not part of the model comparison: no storage-level event is faulted)
+            ctx.count(1, ("local", opkind, style, "fsync", n))
+            why = oracle(ctx, "local", opkind, style, -1, "exc-before", res, pre, post)
+            if why:
+                ctx.violation(f"commit-fault:os-fsync:local:{opkind}:{style}", f"{why} [the {n}-th fsync of the commit failed with EIO]",
+                              {"backend": "local", "op": opkind, "style": style, "fsync_n": n, "outcome": res.outcomes["A0"]})
     ctx.stats["faulty_runs"] = total
+    ctx.stats["runs_reusing_the_transaction_object_oracle_only"] = reuse_runs[0]
     try:
         vals = coqbuild.coq_eval(REQ, exprs, chunk=80)
     except RuntimeError as e:
@@ -368,7 +421,7 @@ def run(ctx) -> None:
         if (nflips == 1) != impl_post or not present or (code in (1, 4, 5) and code != impl_code):
             bad.append({"backend": backend, "op": opkind, "style": style, "k": k, "k2": k2, "fault": fk, "outcome": [st, detail],
                         "model": {"code": code, "flips": nflips, "all_present": present}, "impl": {"post": impl_post, "code": impl_code}})
-    ctx.correspondence("fault-trace", total, bad)
+    ctx.correspondence("fault-trace", total - reuse_runs[0], bad)
     if meta_runs:
         b, o, s_, k, k2, fk, res, evs, _p = meta_runs[len(meta_runs) // 2]
         ctx.sample({"backend": b, "op": o, "style": s_, "k": k, "fault": fk, "outcome": res.outcomes["A0"], "model_events": evs})
@@ -376,6 +429,15 @@ def run(ctx) -> None:
 
 def replay(ctx, payload) -> int:
     c = payload.get("case", {})
+    if "fsync_n" in c:
+        clean = run_one(ctx, c["backend"], c["op"], c["style"])
+        clean.root = ctx.scratch + "/c04"
+        with OsFsyncFault(c["fsync_n"]):
+            res = run_one(ctx, c["backend"], c["op"], c["style"])
+        res.root = ctx.scratch + "/c04"
+        why = oracle(ctx, c["backend"], c["op"], c["style"], -1, "exc-before", res, sig(clean.initial), sig(clean.final))
+        print("replay:", "STILL FAILS: " + why if why else "passes now")
+        return 1 if why else 0
     if "k" not in c:
         print("replay: no concrete case")
         return 2
